@@ -101,7 +101,7 @@ def rand_config(rnd, kind=None):
     if kind == "reverse_needed":
         if rnd.random() < 0.5:  # reverse union rules with several statistics and unusual dictionary orders / dropped statistics
             cfg["params"] = [p for p in rnd.choice([upword.PARAM_SETS[3], upword.PARAM_SETS[4], [("k_0", "a", 0), ("k_1", "b", 0)]]) if p[1] in alpha]
-            cfg["mode"] = rnd.choice(["revnames", "rename revnames", "drop", "drop rename last"]) if cfg["params"] else ""
+            cfg["mode"] = rnd.choice(["revnames revdict", "rename revnames revdict", "revdict", "revnames", "drop", "drop rename last"]) if cfg["params"] else ""
         cfg.update(db="RuleDBForest", reverse_needed=True, prefix=rnd.choice(["b", "a"]) if len(alpha) > 1 else "a",
                    factory=None, inferral=False, symmetry=False, iterative=False, smallest=False, prefver=None)
     if kind == "packver":
@@ -133,6 +133,18 @@ def rand_config(rnd, kind=None):
         cfg["mode"] = rnd.choice(["", "rename"]) if cfg["params"] else ""
     if db == "RuleDBForest" and rnd.random() < 0.25 and not cfg["reverse_needed"] and cfg["sep"] != "reverse":
         cfg["reverse"] = False
+    return cfg
+
+
+def revnames_config(rnd):
+    """several statistics whose names the children list in another order than the strategies' dictionaries mention them"""
+    cfg = rand_config(rnd, None)
+    alpha = rnd.choice(["ab", "ab", "abc"])
+    cfg.update(alpha=alpha, patterns=upword.rand_patterns(rnd, alpha),
+               params=[p for p in rnd.choice([upword.PARAM_SETS[2], upword.PARAM_SETS[3], upword.PARAM_SETS[4]]) if p[1] in alpha],
+               mode=rnd.choice(["revnames", "rename revnames", "revnames revdict", "rename revnames last", "revdict", "rename revnames revdict"]),
+               symmetry=False, prefver=None, packver=None, rot=False, sep=None, reverse_needed=False, prefix="")
+    cfg["prefver"] = None
     return cfg
 
 
